@@ -21,6 +21,12 @@ def main(tier):
     res.merge(histrun.run(PROP, b, core.scaled(400 if quick else 4000), {"qq_fail": 0.35}, ORACLES, salt="qf"))
     # a spawner dies (EOF on its report pipe) with deliveries outstanding: nothing of them may be marked
     res.merge(histrun.run(PROP, b, core.scaled(300 if quick else 3000), {"p_spawner_eof": 0.06, "hold_reports": 0.5}, ORACLES, salt="se"))
+    # many recipients per message (channel files, envelopes and spawner commands larger than the daemon's 128-, 512- and
+    # 1024-byte buffers), reports answered in bursts
+    big = {"min_rcpts": 60, "max_rcpts": 140, "max_msgs": 2, "report_burst": 30, "max_quiescent": 2500, "conc": [5, 20, 120],
+           "spawn": [120], "hold_reports": 0.3, "dup_rcpt": 0.0, "p_long_addr": 0.3}
+    res.merge(histrun.run(PROP, b, core.scaled(6 if quick else 80), big, ORACLES, salt="big"))
+    res.merge(histrun.run(PROP, b, core.scaled(4 if quick else 40), dict(big, p_crash=0.1, variant="lose-all-unsynced"), ORACLES, salt="bigc"))
     # random crashes at quiescent points, both disk variants
     nc = core.scaled(300 if quick else 3000)
     res.merge(histrun.run(PROP, b, nc, {"p_crash": 0.12, "variant": "keep-all"}, ORACLES, salt="ck"))
